@@ -212,11 +212,13 @@ def read_data(fh, mcnp_version, block_type=None, recursion=False, ancestors=()):
                 f"The line: {old_line} exceeded the allowed line length of: {line_length} for MCNP {mcnp_version}",
                 errors.LineOverRunWarning,
             )
-        # a "$" starts a comment: an "&" inside it is text, not a continuation mark
-        if line.rstrip().endswith(" &") and "$" not in line:
-            continue_input = True
-        else:
-            continue_input = False
+        # a "$" starts a comment: an "&" inside it is text, not a continuation mark;
+        # a C comment line neither continues an input nor ends a continuation
+        if not line_is_comment:
+            if line.rstrip().endswith(" &") and "$" not in line:
+                continue_input = True
+            else:
+                continue_input = False
         has_non_comments = has_non_comments or not line_is_comment
         input_raw_lines.append(line.rstrip())
     yield from flush_block()
